@@ -106,6 +106,7 @@ class Program:
         self.fn_stack = []
         self.type_cache = {}
         self.used_gnames = set()
+        self.abstract_names = set()   # Rust function names modelled as abstract parameters
 
     def find(self, name, kinds, line=None, fname=None, optional=False):
         hits = []
@@ -269,6 +270,9 @@ class FnInfo:
         self.outs = []        # indices of &mut params
         self.has_ok = False
         self.src = None
+        self.abstract = False     # modelled as a function parameter (signature only)
+        self.abstracts = []       # [(Gallina parameter name, Gallina type)] this function (transitively) depends on
+        self.tuple_result = False
 
 
 # ---------------------------------------------------------------------------------------------------------
@@ -444,6 +448,8 @@ class FnTr:
             return self.cast(v, ty, e[3])
         if k == 'if':
             return self.tr_if_expr(e, env, expect)
+        if k == 'match':
+            return self.tr_match_expr(e, env, expect)
         if k == 'block':
             if e[1]:
                 self.fail('block expression with statements in expression position', e[3])
@@ -741,6 +747,86 @@ class FnTr:
             checks.append('(if %s then %s else %s)' % (c.leaves[0], ' && '.join(a.checks) or 'true', ' && '.join(b.checks) or 'true'))
         return Val(a.ty, ['(if %s then %s else %s)' % (c.leaves[0], a.leaves[0], b.leaves[0])], checks)
 
+    def tr_match_expr(self, e, env, expect):
+        """match as a value: scrutinee evaluated once (let-bound in the emitted term), arms tried in order, each arm
+        `pat [if guard] => value` becomes `if test then value else <next arms>`; the last arm must be irrefutable."""
+        scrut, arms, line = e[1], e[2], e[3]
+        sv = self.default_lit(self.tr_scalar(scrut, env, None), line)
+        if not (is_int(sv.ty) or (isinstance(sv.ty, tuple) and sv.ty[0] == 'enum') or sv.ty == 'bool'):
+            self.fail('match on a value of type %s' % tyname(sv.ty), line)
+        self.kcount += 1
+        sname = 'scrut_%d' % self.kcount
+        if not arms:
+            self.fail('match without arms', line)
+        checks = list(sv.checks)
+        result_ty = None
+        pieces = []          # (test term or None, binder or None, value Val)
+        for idx, (pat, guard, body, aline) in enumerate(arms):
+            env2 = env
+            test = None
+            binder = None
+            if pat[0] == 'pwild':
+                pass
+            elif pat[0] == 'plit':
+                pv = self.tr_scalar(pat[1], env, sv.ty)
+                if pv.ty == 'lit':
+                    pv = self.coerce_lit(pv, sv.ty, aline)
+                if pv.ty != sv.ty:
+                    self.fail('match pattern of type %s against a scrutinee of type %s' % (tyname(pv.ty), tyname(sv.ty)), aline)
+                test = '(%s =? %s)' % (sname, pv.leaves[0])
+            elif pat[0] == 'ppath' or (pat[0] == 'pname' and self.prog.find(pat[1], ('const', 'static'), optional=True) is not None):
+                pe = ('path', pat[1] if pat[0] == 'ppath' else [pat[1]], aline)
+                pv = self.tr_scalar(pe, env, sv.ty)
+                if pv.ty != sv.ty:
+                    self.fail('match pattern of type %s against a scrutinee of type %s' % (tyname(pv.ty), tyname(sv.ty)), aline)
+                test = '(%s =? %s)' % (sname, pv.leaves[0])
+            else:
+                # identifier pattern: binds the scrutinee
+                name = pat[1]
+                if name in env.vars:
+                    self.fail('match binding `%s` shadows a variable of an enclosing scope' % name, aline)
+                env2 = env.copy()
+                var = self.declare(env2, name, sv.ty, False, True, aline)
+                binder = gname(name, ())
+            if guard is not None:
+                g = self.tr_scalar(guard, env2, 'bool')
+                if g.ty != 'bool':
+                    self.fail('match guard of type %s' % tyname(g.ty), aline)
+                if g.checks:
+                    self.fail('match guard with table indexing / f64 idiom (panic checks inside guards are not modelled)', aline)
+                test = g.leaves[0] if test is None else '(%s && %s)' % (test, g.leaves[0])
+            bv = self.tr_scalar(body, env2, expect if result_ty is None else result_ty)
+            if bv.ty == 'lit':
+                if expect is None and result_ty is None:
+                    self.fail('match arm value is an integer literal of undetermined type', aline)
+                bv = self.coerce_lit(bv, result_ty or expect, aline)
+            if len(bv.leaves) != 1:
+                self.fail('match as a value of composite type %s' % tyname(bv.ty), aline)
+            if result_ty is None:
+                result_ty = bv.ty
+            elif bv.ty != result_ty:
+                self.fail('match arms of different types %s / %s' % (tyname(result_ty), tyname(bv.ty)), aline)
+            if bv.checks:
+                self.fail('match arm value with table indexing / f64 idiom (not modelled inside match arms)', aline)
+            last = idx == len(arms) - 1
+            if last and test is not None:
+                self.fail('the last match arm must be irrefutable (`_` or a binding without guard): exhaustiveness is not analysed', aline)
+            if not last and test is None:
+                self.fail('unreachable match arms after an irrefutable arm', aline)
+            pieces.append((test, binder, bv))
+        term = None
+        for test, binder, bv in reversed(pieces):
+            val = bv.leaves[0]
+            if binder is not None:
+                # the binder is in scope of the guard and of the value
+                if test is None:
+                    term = '(let %s := %s in %s)' % (binder, sname, val)
+                else:
+                    term = '(let %s := %s in if %s then %s else %s)' % (binder, sname, test, val, term)
+            else:
+                term = val if test is None else '(if %s then %s else %s)' % (test, val, term)
+        return Val(result_ty, ['(let %s := %s in %s)' % (sname, sv.leaves[0], term)], checks)
+
     # ---------------- calls
     def default_value(self, ty, line):
         """Default::default() of a type, from `#[derive(Default)]` or its `impl Default`"""
@@ -779,9 +865,16 @@ class FnTr:
             checks += v.checks
             if rk == 'mut':
                 outs.append(pl)
-        term = '(%s)' % ' '.join([info.gname] + terms) if terms else info.gname
+        for ab in info.abstracts:
+            if self.info is not None and ab not in self.info.abstracts:
+                self.info.abstracts.append(ab)
+        if self.info is None and info.abstracts:
+            self.fail('abstract function used in a constant initialiser', line)
+        head = [info.gname] + ([] if info.abstract else [a for a, _ in info.abstracts])
+        term = '(%s)' % ' '.join(head + terms) if (terms or len(head) > 1) else info.gname
         if info.has_ok:
-            checks.append('(%s)' % ' '.join(['ok_' + info.gname[2:]] + terms) if terms else 'ok_' + info.gname[2:])
+            okh = ['ok_' + info.gname[2:]] + [a for a, _ in info.abstracts]
+            checks.append('(%s)' % ' '.join(okh + terms) if (terms or len(okh) > 1) else okh[0])
         nret = len(self.prog.leaves_of(info.ret))
         nout = sum(len(self.place_leaves(pl)) for pl in outs)
         if nret + nout == 1 and not outs:
@@ -817,7 +910,10 @@ class FnTr:
             selfty = t0
         else:
             self.fail('call path %s' % '::'.join(segs), line)
-        info = translate_fn(self.prog, hit[0], hit[1], selfty)
+        if len(segs) == 1 and segs[0] in self.prog.abstract_names:
+            info = abstract_fn(self.prog, hit[0], hit[1])
+        else:
+            info = translate_fn(self.prog, hit[0], hit[1], selfty)
         if len(args) != len(info.params):
             self.fail('call of %s with %d arguments, %d expected' % (info.rust, len(args), len(info.params)), line)
         argvals = []
@@ -1078,7 +1174,7 @@ class FnTr:
         leaves = self.prog.leaves_of(ty)
         for p, t in leaves:
             g = gname(name, p)
-            if g.startswith(('k_', 'ok_', 'okm_', 'i_', 'T_', 'wrap_', 'not_')) or re.fullmatch(r'r\d+_', g):
+            if g.startswith(('k_', 'ok_', 'okm_', 'i_', 'a_', 'T_', 'wrap_', 'not_', 'scrut_')) or re.fullmatch(r'r\d+_', g):
                 self.fail('variable name `%s` collides with a name the generated Gallina uses' % g, line)
             for other in env.vars.values():
                 if other.name != name:
@@ -1307,6 +1403,43 @@ def pp(ir, ind):
     raise RsError('internal: IR node %r' % (k,))
 
 
+def abstract_fn(prog, sf, item):
+    """a function that is NOT translated: calls to it become applications of a function parameter `a_<name>` of the
+    calling definition; only the signature is read (flattened argument leaves -> flattened result leaves)"""
+    key = (sf.path, item.name, 'abstract')
+    if key in prog.fn_done:
+        return prog.fn_done[key]
+    f = Parser(sf, item.start, item.end).parse_fn(sig_only=True)
+    info = FnInfo()
+    info.rust = item.name
+    info.abstract = True
+    info.gname = 'a_' + item.name.replace('::', '_')
+    argt, outt = [], []
+    for pn, pmut, ptast, pline in f[2]:
+        ty, rk = prog.resolve_type(ptast, None, pline, sf.path)
+        info.params.append((pn, ty, rk))
+        for p, t in prog.leaves_of(ty):
+            argt.append('bool' if t == 'bool' else 'Z')
+            if rk == 'mut':
+                outt.append('bool' if t == 'bool' else 'Z')
+    if f[3] is None:
+        info.ret = 'unit'
+    else:
+        info.ret, rk = prog.resolve_type(f[3], None, f[5], sf.path)
+        if rk is not None:
+            fail('abstract function returning a reference', f[5], sf.path)
+    info.tuple_result = isinstance(info.ret, tuple) and info.ret[0] == 'tuple'
+    rett = ['bool' if t == 'bool' else 'Z' for p, t in prog.leaves_of(info.ret)] + outt
+    if not rett:
+        fail('abstract function %s has no result' % item.name, item.line, sf.path)
+    info.abstracts = [(info.gname, ' -> '.join(argt + ['(' + ' * '.join(rett) + ')' if len(rett) > 1 else rett[0]]))]
+    l0, l1 = sf.lines_of(item)
+    prog.header.append('fn %s: NOT translated, modelled as the function parameter %s : %s (signature at %s:%d)' %
+                       (item.name, info.gname, info.abstracts[0][1], sf.path, l0))
+    prog.fn_done[key] = info
+    return info
+
+
 def translate_fn(prog, sf, item, self_type):
     """translate one function (and, first, everything it calls); returns its FnInfo"""
     key = (sf.path, item.name)
@@ -1348,7 +1481,7 @@ def translate_fn(prog, sf, item, self_type):
         body = f[4]
         line = f[5]
         ir = tr.tr_block(body, env, lambda env2, v: tr.finish_value(env2, v, line), nested=False)
-        head = ' '.join(gparams)
+        head = ' '.join(['(%s : %s)' % ab for ab in info.abstracts] + gparams)
         if mode == 'val':
             texts['val'] = 'Definition %s %s :=\n%s.\n' % (info.gname, head, pp(ir, 1))
         else:
